@@ -284,7 +284,7 @@ def run_history(otype, config, ops):
                 _, why, pid, plain, index = op
                 if why == "bad-index" and (pid not in model or not isinstance(model[pid], dict) or 0 <= index <= len(model[pid]["list"])):
                     continue                       # the array has grown meanwhile: the index is valid now
-                if why in ("wrong-type", "read-only", "extra-component") and pid not in model:
+                if why in ("wrong-type", "read-only", "extra-component", "out-of-range") and pid not in model:
                     continue
                 if why == "extra-component" and index is not None and (not isinstance(model[pid], dict) or not (1 <= index <= len(model[pid]["list"]))):
                     continue
@@ -296,9 +296,28 @@ def run_history(otype, config, ops):
                 else:
                     req = A.WritePropertyRequest(objectIdentifier=oid, propertyIdentifier=pid)
                     want = {"unknown-property": [("error", "property", "unknownProperty")], "read-only": [("error", "property", "writeAccessDenied")],
-                            "bad-index": [("error", "property", "invalidArrayIndex")], "wrong-type": WRONG_TYPE_OK, "extra-component": WRONG_TYPE_OK}[why]
+                            "bad-index": [("error", "property", "invalidArrayIndex")], "wrong-type": WRONG_TYPE_OK, "extra-component": WRONG_TYPE_OK,
+                            "out-of-range": WRONG_TYPE_OK + [("error", "property", "valueOutOfRange")]}[why]
                 P = V.lib().P
-                if why == "wrong-type":
+                if why == "out-of-range":
+                    # plain = [position or None, number of elements]: a value beyond the limit of a range-limited unsigned datatype,
+                    # alone, as one element by index, or at some position of a whole array / list
+                    dt0 = pmap[pid][0]
+                    el = dt0
+                    while V.is_arrayof(el) or V.is_listof(el) or V.is_seqof(el):
+                        el = el.subtype
+                    over = P.Unsigned(el._high_limit + 1)
+                    if el is dt0 or index is not None:
+                        lv = over
+                    else:
+                        pos, n_el = plain
+                        items = [P.Unsigned(min(el._high_limit, max(el._low_limit, 1 + j))) for j in range(n_el)]
+                        items[pos % n_el] = over
+                        if getattr(dt0, "fixed_length", None) is not None:
+                            items = (items * dt0.fixed_length)[:dt0.fixed_length]
+                            items[pos % len(items)] = over
+                        lv = (V.lib().C.ArrayOf if V.is_arrayof(dt0) else V.lib().C.ListOf if V.is_listof(dt0) else V.lib().C.SequenceOf)(P.Unsigned)(items)
+                elif why == "wrong-type":
                     lv = plain_wrong(pmap[pid][0])
                     if lv is None:
                         stats["refused"] -= 1
@@ -513,6 +532,22 @@ def history_strategy(otype, focus=None):
             alts.append(st.sampled_from(wr).flatmap(wp))
             alts.append(st.sampled_from(wr).map(lambda pid: ["wp-bad", "wrong-type", pid, None, None]))
             alts.append(st.sampled_from(wr).flatmap(lambda pid: V.strategy(dts[pid], 1).map(lambda v, pid=pid: ["wp-bad", "unknown-object", pid, v, None])))
+        def limited(dt_):
+            while V.is_arrayof(dt_) or V.is_listof(dt_) or V.is_seqof(dt_):
+                dt_ = dt_.subtype
+            return V.atomic_kind(dt_) == "Unsigned" and getattr(dt_, "_high_limit", None) is not None
+        wlim = [p for p in wr if limited(dts[p])]
+        if wlim:
+            def oor(pid):
+                dt_ = dts[pid]
+                if V.atomic_kind(dt_) is not None:
+                    return st.just(["wp-bad", "out-of-range", pid, None, None])
+                whole = st.tuples(st.integers(0, 3), st.integers(1, 4)).map(lambda t, pid=pid: ["wp-bad", "out-of-range", pid, list(t), None])
+                if is_array(dt_) and cfg[pid][1]["list"]:
+                    return st.one_of(whole, whole, st.just(["wp-bad", "out-of-range", pid, None, 1]))
+                return whole
+            alts.append(st.sampled_from(wlim).flatmap(oor))
+            alts.append(st.sampled_from(wlim).flatmap(oor))
         watom = [p for p in wr if V.atomic_kind(dts[p]) is not None]
         if watom:
             alts.append(st.sampled_from(watom).flatmap(lambda pid: V.strategy(dts[pid], 1).map(lambda v, pid=pid: ["wp-bad", "extra-component", pid, v, None])))
